@@ -135,6 +135,13 @@ func c14Gen(t *rapid.T) c14Case {
 	c := c14Case{Kind: "general"}
 	lat, lon := genLat(t, "lat"), genLon(t, "lon")
 	r := math.Pow(10, rapid.Float64Range(0, math.Log10(piR)).Draw(t, "rexp"))
+	if rapid.IntRange(0, 9).Draw(t, "beyond") == 0 {
+		// "every radius of at least one metre": beyond half the circumference the disc is the whole sphere
+		r = rapid.SampledFrom([]float64{piR * 1.0000001, 1.5 * piR, 2 * piR, 2*piR + 1000, 2*piR + 2e6, 3 * piR, 4*piR + 50, 1e8, 1e9, 1e12, 1e18, 1e300}).Draw(t, "rbig")
+		c.Kind = "beyond-half-circumference"
+		c.Lat, c.Lon, c.R = F(lat), F(lon), F(r)
+		return c
+	}
 	switch rapid.IntRange(0, 7).Draw(t, "kind") {
 	case 0: // boundary radii
 		r = rapid.SampledFrom([]float64{1, 1.0000001, 1.5, 2, piR / 2, piR, piR * 0.9999999, 0.5, 0.3, 0.01, 0, 1e-9, 100}).Draw(t, "rb")
